@@ -31,6 +31,9 @@ inductive Micro where
   | del (g : Nat)               -- remove every node owned by g
   | delSpace (c : Nat)          -- remove every node of id space c
   | delAll
+  | ctor (weak : Bool)          -- construction of a store shell (importer / graph object); `weak` = its creation guard
+                                -- is a truthiness test on a store class that can be falsy (`if not X.storage_instance`
+                                -- with `__len__`/`__bool__` on the store): an existing but empty store is then replaced
   deriving DecidableEq, Repr, Inhabited
 
 inductive Stmt where
@@ -278,6 +281,7 @@ def discStep : DQ → Micro → DQ
   | .out, .loc => .out
   | .out, .rdg => .out          -- unlocked *reads* of the graph are part of the API (get_graph)
   | .out, .acq => .idle
+  | .out, .ctor w => if w then .bad else .out   -- a shell may be constructed any time outside the lock
   | .out, _ => .bad
   | _, .acq => .bad
   | q, .loc => q
